@@ -140,6 +140,9 @@ RuleVal(r, args, inst, oname, ci, couts, fc) ==
       [] r.k = "fmap"  -> VObj(("a" :> VFile(inst, oname \o "_a", fc)) @@ ("b" :> VFile(inst, oname \o "_b", fc)))
       [] r.k = "files2d" -> VArr(<<VArr(<<VFile(inst, oname \o "_0_0", fc), VFile(inst, oname \o "_0_1", fc)>>),
                                     VArr(<<VFile(inst, oname \o "_1_0", fc)>>), VArr(<<>>)>>)
+      [] r.k = "files3d" -> VArr(<<VArr(<<VArr(<<VFile(inst, oname \o "_0_0_0", fc), Null, VFile(inst, oname \o "_0_0_2", fc)>>),
+                                          VArr(<<>>)>>),
+                                    VArr(<<VArr(<<VFile(inst, oname \o "_1_0_0", fc)>>)>>)>>)     \* three dimensions, a null element, an empty row
       [] r.k = "fmapk" -> VObj([x \in {r.keys[i] : i \in DOMAIN r.keys} |-> VFile(inst, oname \o "_" \o x, fc)])   \* typed map with the given keys
       [] r.k = "fstrs" -> VArr(<<Null, VFStr(inst, oname \o "_1.dat", fc), VStr("not a path"), VFStr(inst, oname \o "_3.dat", fc)>>)   \* strings of which some hold paths
       [] r.k = "fstr"  -> VFStr(inst, oname \o ".dat", fc)
